@@ -2,7 +2,7 @@
    Property theorems only; each is closed by a lemma of Proofs/C09*.v.
    The model (Model/C09Model.v) is parametric in the variant of the code; [fixedv] is the
    repository with the four "fix:" commits of branch agent-c09, [origv] the unchanged tree. *)
-From GP Require Import Base C09Model C09Spec C09Seq C09Proofs C09Stream C09Flush C09Keep C09Send C09Full.
+From GP Require Import Base C09Model C09Spec C09Seq C09Proofs C09Stream C09Flush C09Keep C09Send C09Full C09Cover.
 Open Scope Z_scope.
 
 (* ------------------------------------------------------------------ (i) C09_seq *)
@@ -376,3 +376,34 @@ Example C09_stream_events_nonvacuous :
       (filter is_sg (concat (map fst (run_hist fullv w_S 4294967293 hs))))
   = [(1, 0, 0, [0; 17; 34; 51; 68; 85]); (1, 0, 5, [17; 34; 51; 68; 85; 102; 119]); (2, -1, 0, [136; 153])].
 Proof. vm_compute. split; reflexivity. Qed.
+
+(* ------------------------------------------------------------------ nothing held is lost *)
+
+(* covl S i q x: byte x of the stream is held by a page of the queue q.
+   checkOverlap (all six cases): every byte held before is held afterwards, except the bytes of the
+   new segment's own range when it is delivered at once (in-order mode); in queue mode the bytes of
+   the new segment are held afterwards - in fresh pages or, case 6, in the page that already had them. *)
+Theorem C09_queue_cover : forall S i w q s n ts fl doq,
+  zlen S < 1073741823 -> qok S i w HIS q -> 0 <= w -> 0 <= s -> 0 <= n -> s + n <= zlen S ->
+  let r := check_overlap fullv q (sub S s n) (sq i s) ts fl doq in
+  forall x, (covl S i q x /\ ~ (s <= x < s + n)) \/ (doq = true /\ s <= x < s + n) -> covl S i (c2_queue r) x.
+Proof. exact check_overlap_cover. Qed.
+Print Assumptions C09_queue_cover.
+
+(* addContiguous: held bytes beyond the end e' of the run it takes stay queued, and the run extends
+   beyond every x such that all of [e, x] is held: data that has arrived contiguously is never left
+   behind, and is never dropped *)
+Theorem C09_contig_cover : forall S i q e lo hi,
+  zlen S < 1073741823 -> qok S i lo hi q -> e <= lo -> 0 <= e -> hi <= HI 0 -> zlen S < hi -> e <= zlen S ->
+  forall e' tk q1, contig_loop fullv q (sq i e) = (tk, q1, sq i e') -> e <= e' -> e' <= zlen S ->
+  (forall x, covl S i q x -> e' <= x -> covl S i q1 x) /\
+  (forall x, e <= x -> (forall y, e <= y <= x -> covl S i q y) -> x < e').
+Proof. exact contig_loop_cover. Qed.
+Print Assumptions C09_contig_cover.
+
+(* a flush or a page limit hands over the first queued page: no held byte lies before it, so the
+   range that is skipped (from the delivery point, which is <= lo, to that page) holds no queued byte *)
+Theorem C09_skip_holds_nothing : forall S i q lo hi x,
+  zlen S < 1073741823 -> qok S i lo hi q -> covl S i q x -> lo <= x.
+Proof. exact qok_cov_ge. Qed.
+Print Assumptions C09_skip_holds_nothing.
